@@ -14,6 +14,7 @@ struct PanicRec {
 }
 
 thread_local! { static LAST_PANIC: RefCell<Option<PanicRec>> = const { RefCell::new(None) }; }
+thread_local! { static GUARD_DEPTH: std::cell::Cell<u32> = const { std::cell::Cell::new(0) }; }
 
 fn install_hook() {
     std::panic::set_hook(Box::new(|info| {
@@ -28,6 +29,10 @@ fn install_hook() {
         } else {
             "<non-string panic>".to_string()
         };
+        if GUARD_DEPTH.with(|d| d.get()) == 0 {
+            // not a case under observation: a bug of the harness itself must stay visible
+            eprintln!("[c06] harness panic at {}:{}:{}: {}", file, line, col, msg);
+        }
         let bt = std::backtrace::Backtrace::force_capture().to_string();
         let mut frames = vec![];
         for l in bt.lines() {
@@ -68,7 +73,10 @@ fn panic_from_json(v: &Value) -> PanicRec {
 
 /// catch_unwind that returns the recorded panic
 fn guarded<T>(phase: &str, f: impl FnOnce() -> T) -> Result<T, PanicRec> {
-    match std::panic::catch_unwind(std::panic::AssertUnwindSafe(f)) {
+    GUARD_DEPTH.with(|d| d.set(d.get() + 1));
+    let r = std::panic::catch_unwind(std::panic::AssertUnwindSafe(f));
+    GUARD_DEPTH.with(|d| d.set(d.get() - 1));
+    match r {
         Ok(v) => Ok(v),
         Err(_) => Err(take_panic(phase)),
     }
